@@ -119,11 +119,17 @@ def run(pid, tier):
                 prefix.append({"op": "SignCp", "n": k, "t": "A", "c": "A"})
                 if k >= 1 and k + 1 <= base:
                     prefix.append({"op": "ValidateRevocation", "n": k - 1, "t": "A", "m": k - 1})
+            rp = {"kind": "chan-seq", "n": n + base + 2 if base else n, "phase": phase, "mon": pid, "inv": inv,
+                  "requests": prefix + [s["req"] for s in seq]}
+            if side == "handler":
+                # protocol-handler requests are replayed by re-deriving the handler graph (hand explore) and
+                # asking TLC for the same finding
+                rp = {"kind": "hand-explore", "n": n, "mon": pid, "inv": inv, "expect": key,
+                      "requests": [s["req"] for s in seq]}
             violations.append({"key": key, "what": "%s fails on the real implementation after%s: %s" % (
                 r["violated"][0], (" %d honest commitment cycles and" % base) if base else "",
                 " ; ".join(json.dumps(s["req"], sort_keys=True) for s in seq)),
-                "replay": {"kind": "chan-seq", "n": n + base + 2 if base else n, "phase": phase, "mon": pid, "inv": inv,
-                           "requests": prefix + [s["req"] for s in seq]}})
+                "replay": rp})
 
     # ---- leg C: model behaviours replayed through the implementation, validated by TLC
     nsim, depth, nn = (40, 40, 6) if quick else (400, 60, 10)
@@ -193,6 +199,16 @@ def _accepted(ex):
 def replay(pid, obj):
     """Re-run a recorded violating request sequence on the real implementation and let TLC judge."""
     rp = obj["replay"]
+    if rp.get("kind") == "hand-explore":
+        ex = chan.extract_handler(rp["n"])
+        r = chan.impl_tlc(ex, rp["mon"], [rp["inv"]], workers=8)
+        if r["violated"]:
+            seq = chan.trace_requests(r["trace"])
+            print("  " + " ; ".join(json.dumps(x["req"], sort_keys=True) for x in seq))
+            print("VIOLATION property=%s replay=%s" % (pid, "(reproduced)"))
+            return 1
+        print("not reproduced")
+        return 0
     binpath = vlib.build("chan")
     d = vlib.workdir("chan-replay-%s" % pid)
     steps_file = d + "/steps.ndjson"
